@@ -1141,58 +1141,51 @@ def op_c17(case):
 # C18: work counters through a counting Tokenizer subclass (public constructor)
 # ---------------------------------------------------------------------------------------------
 def op_c18(case):
+    """work = getnext + peek + reset calls on every Tokenizer the public entry point parse_string creates for the input
+    (counted on the class, so a restart or a second tokenizer is included)"""
     from peg_parser.tokenizer import Tokenizer
 
-    class Counting(Tokenizer):
-        n_get = n_peek = n_reset = 0
+    cnt = [0]
+    orig = {n: Tokenizer.__dict__[n] for n in ("getnext", "peek", "reset")}
 
-        def getnext(self):
-            self.n_get += 1
-            return super().getnext()
+    def wrap(f):
+        def counted(self, *a):
+            cnt[0] += 1
+            return f(self, *a)
+        return counted
 
-        def peek(self):
-            self.n_peek += 1
-            return super().peek()
-
-        def reset(self, index):
-            self.n_reset += 1
-            return super().reset(index)
-
-    sys.setrecursionlimit(50000)
     out = []
     budget = case.get("budget", 3_000_000)
-    for src in case["srcs"]:
-        ntok = None
-        try:
-            ntok = sum(1 for t in T().generate_tokens(src) if t.type.name not in ("WS", "NL", "COMMENT"))
-        except BaseException:  # noqa: BLE001
-            pass
-        tk = Counting(T().generate_tokens(io.StringIO(src).readline))
-
-        class Stop(BaseException):
-            pass
-
-        def guard(orig=tk.peek):
-            pass
-
-        p = P()(tk)
-        arm()
-        outcome = "tree"
-        try:
-            import threading
-
-            threading.stack_size(256 * 1024 * 1024)
-            p.parse("file")
-        except HangTimeout:
-            outcome = "timeout"
-        except RecursionError:
-            outcome = "recursion"
-        except BaseException as e:  # noqa: BLE001
-            outcome = "exc:" + type(e).__name__
-        out.append({"tokens": ntok if ntok is not None else len(tk._tokens), "work": tk.n_get + tk.n_peek + tk.n_reset, "outcome": outcome})
-        if out[-1]["work"] > budget or outcome == "timeout":
-            break  # larger sizes of a family that already exploded are not run
-    sys.setrecursionlimit(1000)
+    reclimit = case.get("reclimit") or 50000
+    for n, f in orig.items():
+        setattr(Tokenizer, n, wrap(f))
+    try:
+        for src in case["srcs"]:
+            ntok = None
+            sys.setrecursionlimit(50000)
+            try:
+                ntok = sum(1 for t in T().generate_tokens(src) if t.type.name not in ("WS", "NL", "COMMENT"))
+            except BaseException:  # noqa: BLE001
+                pass
+            sys.setrecursionlimit(reclimit)      # every measurement starts from the same interpreter state
+            cnt[0] = 0
+            arm()
+            outcome = "tree"
+            try:
+                P().parse_string(src, mode="exec")
+            except HangTimeout:
+                outcome = "timeout"
+            except RecursionError:
+                outcome = "recursion"
+            except BaseException as e:  # noqa: BLE001
+                outcome = "exc:" + type(e).__name__
+            out.append({"tokens": ntok if ntok is not None else max(1, len(src) // 2), "work": cnt[0], "outcome": outcome})
+            if out[-1]["work"] > budget or outcome == "timeout":
+                break  # larger sizes of a family that already exploded are not run
+    finally:
+        for n, f in orig.items():
+            setattr(Tokenizer, n, f)
+        sys.setrecursionlimit(1000)
     return {"series": out}
 
 
@@ -1260,15 +1253,21 @@ _EV = [
 ]
 
 
-def parse_verbose_log(text: str, ntok: int = 0) -> list:
+def parse_verbose_log(text: str, w=()) -> list:
     import re
 
+    ntok = len(w)
+    starts, c = {}, 0
+    for k, t in enumerate(w):
+        starts[c] = k
+        c += len(t) + 1
+    starts[max(c - 1, 0)] = ntok          # the NEWLINE sits right after the last token
+
     def pos(m):
-        # tokens are one character wide and separated by one space: column 2k = token k; the NEWLINE sits right after the
-        # last token (column 2n-1), the ENDMARKER on the next line
+        # tokens are separated by one space: map the printed column to the token index; the ENDMARKER is on the next line
         if ntok == 0:
             return 0  # empty input: only the ENDMARKER is left
-        return ntok + 1 if int(m.group(2)) > 1 else (int(m.group(3)) + 1) // 2
+        return ntok + 1 if int(m.group(2)) > 1 else starts.get(int(m.group(3)), -1)
 
     out = []
     for ln in text.splitlines():
@@ -1315,5 +1314,5 @@ def op_c17_verbose(case):
             st = "raise"
         except BaseException as e:  # noqa: BLE001
             st = "error:" + type(e).__name__
-        res.append({"st": st, "log": parse_verbose_log(buf.getvalue(), len(w))})
+        res.append({"st": st, "log": parse_verbose_log(buf.getvalue(), w)})
     return {"build": "ok", "results": res}
